@@ -541,7 +541,7 @@ var shardTenants = []string{"tenant-1", "tenant-2", "special-tenant", "prefix-te
 func genC21(c *hlib.Ctx) {
 	r := c.R
 	ls := allLayouts(12, 3)
-	for i := 0; i < c.N(220, 1800) && !gaveUp(); i++ {
+	for i := 0; i < c.N(170, 1800) && !gaveUp(); i++ {
 		l := pickLayout(r, ls, 12)
 		for l.total() < 2 {
 			l = pickLayout(r, ls, 12)
